@@ -141,6 +141,10 @@ var minimalHistories = []History{
 	{Kind: pool.PingPong, MaxConn: 1, MaxReq: 0, Ops: []Op{{K: "lease"}, {K: "reply"}, {K: "close"}, {K: "lease"}}},
 	// multiplex: GoAway, then the connection closes under an in-flight request
 	{Kind: pool.Mux, MaxConn: 1, MaxReq: 2, Ops: []Op{{K: "lease"}, {K: "goaway"}, {K: "upclose"}, {K: "lease"}}},
+	// multiplex: GoAway while a request is in flight, a new lease starts the replacement, the old connection drains
+	{Kind: pool.Mux, MaxConn: 1, MaxReq: 0, Ops: []Op{{K: "lease"}, {K: "goaway"}, {K: "lease"}, {K: "reply", A: 0}, {K: "upclose", A: 0}, {K: "lease"}, {K: "close"}}},
+	// control: GoAway, the connection drains before anybody asks for a new stream -> the pool closes it
+	{Kind: pool.Mux, MaxConn: 1, MaxReq: 0, Ops: []Op{{K: "lease"}, {K: "goaway"}, {K: "reply"}, {K: "lease"}, {K: "reply"}}},
 	// the same shapes on pools where they are fine
 	{Kind: pool.HTTP1, MaxConn: 1, MaxReq: 0, Ops: []Op{{K: "lease"}, {K: "reset"}, {K: "lease"}, {K: "reply"}}},
 	{Kind: pool.PingPong, MaxConn: 2, MaxReq: 1, Ops: []Op{{K: "lease"}, {K: "lease"}, {K: "reply"}, {K: "lease"}}},
